@@ -234,21 +234,27 @@ def minimise_panic(v):
     want_sig = v["sig"]
     rest = ops[1:]
 
+    sess = core.Session(CONFIGS[w["cfg"]], flavour=w.get("flavour", "native"))
+
     def reproduces(xml):
-        with core.Session(CONFIGS[w["cfg"]], flavour=w.get("flavour", "native")) as s:
-            res = s.batch([("set_mathml", xml)] + rest, timeout=60)
-            if res is None:
-                return False
-            last = res[-1]
-            name = (rest[-1][0] if rest else "set_mathml")
-            return last["r"] == "panic" and panic_sig(name, last["p"]) == want_sig
+        res = sess.batch([("set_mathml", xml)] + rest, timeout=60)
+        if res is None:
+            return False
+        last = res[-1]
+        name = (rest[-1][0] if rest else "set_mathml")
+        return last["r"] == "panic" and panic_sig(name, last["p"]) == want_sig
     try:
         tree = gen.from_xml(ops[0][1])
     except Exception:
+        sess.close()
         return v
     if not reproduces(tree.xml()):
+        sess.close()
         return v
-    small = shrink.shrink_tree(tree if tree.tag == "math" else gen.math(tree), reproduces_tree(reproduces), budget=400)
+    try:
+        small = shrink.shrink_tree(tree if tree.tag == "math" else gen.math(tree), reproduces_tree(reproduces), budget=150)
+    finally:
+        sess.close()
     w2 = dict(w)
     w2["ops"] = [["set_mathml", small.xml()]] + [list(o) for o in rest]
     w2.pop("full_tail", None)
